@@ -18,7 +18,7 @@ HARD = ["del_file", "truncate", "extend", "insert_boundary", "insert_data", "rem
         "fab_shift", "cellh_shift", "cellh_reshape", "cellh_delbox", "cellh_delbox_fix", "cellh_delfod",
         "cellh_delfod_fix", "cellh_garble_box", "cellh_garble_tokens", "fod_garble_offset", "fod_garble_tokens",
         "fod_nofile", "fod_other", "fod_data", "fod_eof", "fod_negative", "del_cellh", "del_both_fix",
-        "fab_ncomp_consistent", "nfields_plus"]
+        "fab_ncomp_consistent", "nfields_plus", "pad_fix"]
 COORD = ["bounds_shift"]
 # kinds that tend to survive validation (C20's domain)
 SOFT = ["off_prefix", "ws_cellh", "ws_header", "fab_prefix_text", "swap_pairs", "minmax_edit", "payload_flip",
@@ -33,7 +33,7 @@ C04_CLASS = {"del_file": "missing-file", "del_cellh": "level-header", "truncate"
              "fod_garble_tokens": "level-header", "fod_nofile": "level-header", "fod_other": "level-header",
              "fod_data": "level-header", "fod_eof": "level-header", "fod_negative": "level-header",
              "del_both_fix": "level-header", "bounds_shift": "coordinates", "fab_ncomp_consistent": "layout",
-             "nfields_plus": "layout"}
+             "nfields_plus": "layout", "pad_fix": "layout"}
 
 
 def op_strategy(kinds, max_lv=3):
@@ -139,6 +139,20 @@ def _apply(p, op):
     elif k == "insert_boundary":
         d = rd()
         wr(d[:off] + b"\x01" * amt + d[off:])
+    elif k == "pad_fix":
+        # bytes inserted in front of this box's FAB *and* the recorded byte positions of this and all later boxes of the
+        # file moved by the same amount: every entry still points at its FAB header, but the file is longer than the
+        # boxes of the level header account for
+        pad = {1: b"\0" * 8, 3: b"   ", 8: b"junk", 64: b"\n", 4096: b"# stray line\n"}.get(amt, b"\0" * 8)
+        d = rd()
+        wr(d[:off] + pad + d[off:])
+
+        def f(t):
+            for b2, (fn2, off2) in enumerate(lev["fod"]):
+                if fn2 == fn and off2 >= off:
+                    j = lev["fod0"] + b2
+                    t[j] = " ".join(t[j].split()[:2] + [str(off2 + len(pad))])
+        _rw(ch, f)
     elif k == "insert_data":
         d = rd()
         he, de = _fab_extent(d, off)
